@@ -151,6 +151,7 @@ type ReleaseEvent struct {
 type World struct {
 	mu     sync.Mutex
 	delMu  sync.Mutex
+	relMu  sync.Mutex // guards Releases
 	Kube   *kubefake.Clientset
 	Galaxy *galaxyfake.Clientset
 	Ext    *extfake.Clientset
@@ -639,23 +640,30 @@ func (w *World) DrainReleaseChan() {
 		if !ok {
 			return
 		}
+		w.relMu.Lock()
 		w.Releases = append(w.Releases, ReleaseEvent{Pod: pod})
+		w.relMu.Unlock()
 	}
 }
 
 // HandleRelease handles the idx-th queued release event the way the plugin's loop does (unbind, retry ≤ 3 times).
 // Returns the error of the unbind call.
 func (w *World) HandleRelease(idx int) (error, bool) {
+	w.relMu.Lock()
 	if idx < 0 || idx >= len(w.Releases) {
+		w.relMu.Unlock()
 		return nil, false
 	}
 	ev := w.Releases[idx]
 	w.Releases = append(w.Releases[:idx:idx], w.Releases[idx+1:]...)
+	w.relMu.Unlock()
 	err := w.Plugin.VerifUnbind(ev.Pod)
 	if err != nil {
 		ev.Retry++
 		if ev.Retry <= 3 {
+			w.relMu.Lock()
 			w.Releases = append(w.Releases, ev)
+			w.relMu.Unlock()
 		}
 	}
 	return err, true
